@@ -190,6 +190,9 @@ func (p *wat2cWorker) buildFunc_ins(w io.Writer, fn *ast.Func, stk *valueTypeSta
 
 	case token.INS_BLOCK:
 		i := i.(ast.Ins_Block)
+		if i.Label == "" {
+			i.Label = p.newAnonLabel()
+		}
 
 		stkBase := stk.Len()
 		defer func() { assert(stk.Len() == stkBase+len(i.Results)) }()
@@ -214,6 +217,9 @@ func (p *wat2cWorker) buildFunc_ins(w io.Writer, fn *ast.Func, stk *valueTypeSta
 
 	case token.INS_LOOP:
 		i := i.(ast.Ins_Loop)
+		if i.Label == "" {
+			i.Label = p.newAnonLabel()
+		}
 
 		stkBase := stk.Len()
 		defer func() { assert(stk.Len() == stkBase+len(i.Results)) }()
@@ -238,6 +244,9 @@ func (p *wat2cWorker) buildFunc_ins(w io.Writer, fn *ast.Func, stk *valueTypeSta
 
 	case token.INS_IF:
 		i := i.(ast.Ins_If)
+		if i.Label == "" {
+			i.Label = p.newAnonLabel()
+		}
 
 		sp0 := stk.Pop(token.I32)
 		fmt.Fprintf(w, "%sif(R%d.i32) {\n", indent, sp0)
